@@ -18,6 +18,24 @@ pub fn main(args: &[String]) {
                 s.push_str("  input a;\n  reg logic;\nendmodule\n`end_keywords\nmodule n; reg logic; endmodule\n"); s } };
         cases.push((if lib { "lib" } else { "sv" }.into(), t, ["mutated", "soup", "concat", "kw-region"][i % 4].into()));
     }
+    // accepted corpus programs re-laid-out with directive-rich trivia (many extra memo entries per token): the stream on which the
+    // known class `eviction-dependent-result` (left-recursive productions re-evaluated after an eviction) shows up
+    {
+        use crate::{api::*, toks};
+        let svc: Vec<_> = corp.iter().filter(|x| x.kind == "sv" && !x.text.contains('`')).collect();
+        let m = if thorough { svc.len() * 3 } else { 150 };
+        for i in 0..m {
+            let it = if thorough { svc[i % svc.len()] } else { *rng.pick(&svc) };
+            match preprocess_str(&it.text, std::path::PathBuf::from("t.sv"), &no_defines(), &no_includes(), false, false, 0, 0) { Ok((p, _)) if p.text() == it.text => {}, _ => continue }
+            let tree = match crate::c12::parse(&it.text) { Ok((t, _)) => t, Err(_) => continue };
+            let tk = toks::tokens(&tree);
+            if tk.len() < 3 { continue; }
+            let t = crate::c12::relayout(&it.text, &tk, &mut rng, None, false);
+            // only layouts the preprocessor leaves alone: the parser is then given exactly this text
+            match preprocess_str(&t, std::path::PathBuf::from("t.sv"), &no_defines(), &no_includes(), false, false, 0, 0) { Ok((p, _)) if p.text() == t => {}, _ => continue }
+            cases.push(("sv".into(), t, "relayout".into()));
+        }
+    }
     let cases = std::sync::Arc::new(cases);
     let c2 = cases.clone(); let w2 = workdir.clone();
     let results = util::par_map(cases.len(), util::env_usize("SVH_THREADS", 16), move |i| {
@@ -25,6 +43,7 @@ pub fn main(args: &[String]) {
         let kinds = Kinds::load(&w2);
         let mut caps: Vec<Option<usize>> = vec![Some(128), Some(1024), Some(4096), None];
         if text.len() <= 40 { caps.extend([Some(1), Some(2), Some(16)]); }
+        else { caps.extend([Some(512), Some(1500)]); }   // tiny capacities make the real parser exponential on longer inputs
         let mut lines = vec![];
         for c in &caps {
             let (k, t) = (kind.clone(), text.clone()); let cc = *c; let kk = Kinds { id: kinds.id.clone(), names: kinds.names.clone() };
@@ -34,6 +53,7 @@ pub fn main(args: &[String]) {
         lines
     });
     let mut rep = Report::new("every corpus program + mutated / soup / concatenated programs + long modules with a `begin_keywords region, parsed at memo capacities 128, 1024, 4096, unbounded (and 1, 2, 16 for inputs <= 40 bytes); acceptance, end position, error position and full tree skeleton must agree; non-trivial = accepted at capacity 1024; distinct by (grammar, text)");
+    let mut capdep_cases: Vec<String> = vec![]; let mut capdep_impl: Vec<String> = vec![];
     for ((kind, text, tag), lines) in cases.iter().zip(results.into_iter()) {
         let key = format!("{}{}", kind, text);
         let base = lines.iter().find(|l| l.0 == Some(1024)).map(|l| l.1.clone()).unwrap_or_default();
@@ -47,13 +67,25 @@ pub fn main(args: &[String]) {
                 let (ka, kb) = (l.starts_with("ok"), base.starts_with("ok"));
                 if ka != kb || (ka && a != b) {
                     let what = format!("capacity {:?} gives `{}` but capacity 1024 gives `{}`", c, &l[..l.len().min(60)], &base[..base.len().min(60)]);
-                    if text.contains("`begin_keywords") || text.contains("`end_keywords") { rep.known("directive-in-reparsed-region", &what, text, ""); } else { rep.violation(&what, text, ""); }
+                    if text.contains("`begin_keywords") || text.contains("`end_keywords") { rep.known("directive-in-reparsed-region", &what, text, ""); }
+                    else {
+                        // candidate for the known class `eviction-dependent-result`: excused only if the executable model, whose memo mechanism is fixed
+                        // (key = production x position x in-directive flag; recursion flags and the version stack are not part of the key), reproduces the
+                        // outcome at EVERY capacity — the driver runs the model on these lines and any difference is a violation
+                        rep.known("eviction-dependent-result", &what, text, "");
+                        for (c2, l2) in &lines {
+                            capdep_cases.push(format!("parse {} {} {}", kind, match c2 { Some(n) => n.to_string(), None => "none".into() }, util::hex(text.as_bytes())));
+                            capdep_impl.push(l2.split(' ').take(7).collect::<Vec<_>>().join(" "));
+                        }
+                    }
                     break;
                 }
             }
         }
         if base.starts_with("ok") && text.len() < 100 { rep.sample(text.clone()); }
     }
+    std::fs::write(format!("{}.capdep.cases", out), capdep_cases.join("\n") + if capdep_cases.is_empty() { "" } else { "\n" }).unwrap();
+    std::fs::write(format!("{}.capdep.impl", out), capdep_impl.join("\n") + if capdep_impl.is_empty() { "" } else { "\n" }).unwrap();
     rep.write(out);
     println!("ok");
 }
